@@ -320,6 +320,13 @@ def g_project(rng, idx):
     targets = []
     nt = rng.randint(1, 3)
     shared = rng.random() < 0.15 and nt >= 2
+    # the targets may live in sub/meson.build, reached through subdir('sub')
+    insub = rng.random() < 0.2
+    ROOT = L
+    if insub:
+        ROOT.append("subdir('sub')")
+        L = [rng.choice(['# sub', 'subvar = n + 1', ''])]
+    tfile = 'sub/meson.build' if insub else 'meson.build'
     if shared:
         L.append("shared = ['sh.c']")
     for i in range(nt):
@@ -380,11 +387,16 @@ def g_project(rng, idx):
             L.append('endif')
         if rng.random() < 0.3:
             L.append(rng.choice(['', '# between targets', "msg%d = 'done %d'" % (i, i)]))
-        targets.append({'name': name, 'var': var, 'srcs': srcs, 'form': form, 'kws': [k for k, _ in kws], 'extra': extra, 'in_if': in_if})
+        targets.append({'name': name, 'var': var, 'srcs': srcs, 'form': form, 'kws': [k for k, _ in kws], 'extra': extra, 'in_if': in_if,
+                        'file': tfile})
+    files = {}
+    if insub:
+        files['sub/meson.build'] = '\n'.join(L) + ('\n' if rng.random() < 0.8 else '')
+        L = ROOT
     if rng.random() < 0.5:
         L.append(rng.choice(["y = 1 # end", "message('x'.format())", "summary({'a' : a})"]))
-    text = '\n'.join(L) + ('\n' if rng.random() < 0.9 else '')
-    return {'meson.build': text}, {'targets': targets, 'dep': dep, 'defopts': defopts, 'shared': shared}
+    files['meson.build'] = '\n'.join(L) + ('\n' if rng.random() < 0.9 else '')
+    return files, {'targets': targets, 'dep': dep, 'defopts': defopts, 'shared': shared}
 
 
 def jcmd(cmds):
@@ -398,7 +410,9 @@ def g_scenario(rng, meta):
     k = rng.random()
     steps = []
     info = ['target', tid, 'info']
-    newf = rng.sample(['new.c', 'zz.c', 'aa.c', "it's.c", 'sub dir/x.c', 'bé.c', 'N10.c', 'n9.c'], rng.randint(1, 2))
+    # paths on the command line are relative to the source root
+    sp = (lambda f: 'sub/' + f) if tg.get('file', '').startswith('sub/') else (lambda f: f)
+    newf = [sp(f) for f in rng.sample(['new.c', 'zz.c', 'aa.c', "it's.c", 'sub dir/x.c', 'bé.c', 'N10.c', 'n9.c'], rng.randint(1, 2))]
     if k < 0.3:
         steps.append((info, {'op': 'info', 'target': tg['name']}))
         if rng.random() < 0.5:
@@ -411,14 +425,14 @@ def g_scenario(rng, meta):
         steps.append((info, {'op': 'info', 'target': tg['name'], 'expect_same_as': 0}))
     elif k < 0.45:
         own = [x for x in tg['srcs'] if x != 'sh.c']
-        gone = own if (tg['form'] in ('mixed', 'nested') and rng.random() < 0.7) else [rng.choice(own)]
+        gone = [sp(f) for f in (own if (tg['form'] in ('mixed', 'nested') and rng.random() < 0.7) else [rng.choice(own)])]
         steps.append((info, {'op': 'info', 'target': tg['name']}))
         steps.append((['target', tid, 'rm'] + gone, {'op': 'src_rm', 'target': tg['name'], 'files': gone}))
         steps.append((info, {'op': 'info', 'target': tg['name'], 'expect_removed': gone}))
         steps.append((['target', tid, 'add'] + gone, {'op': 'src_add', 'target': tg['name'], 'files': gone}))
         steps.append((info, {'op': 'info', 'target': tg['name'], 'expect_same_as': 0}))
     elif k < 0.55:
-        ef = rng.sample(['NOTES', 'doc/x.txt', "it's.txt"], rng.randint(1, 2))
+        ef = [sp(f) for f in rng.sample(['NOTES', 'doc/x.txt', "it's.txt"], rng.randint(1, 2))]
         steps.append((info, {'op': 'info', 'target': tg['name']}))
         steps.append((['target', tid, 'add_extra_files'] + ef, {'op': 'extra_add', 'target': tg['name'], 'files': ef}))
         steps.append((info, {'op': 'info', 'target': tg['name'], 'expect_extra_added': ef}))
@@ -445,17 +459,17 @@ def g_scenario(rng, meta):
         steps.append((['kwargs', 'info', 'target', tid], {'op': 'kw_info', 'func': 'target', 'id': tid,
                                                             'expect_kw': prev['keys'] if prev['op'] == 'kw_set' else {},
                                                             'expect_absent': prev['keys'] if prev['op'] == 'kw_del' else []}))
-    elif k < 0.80:
+    elif k < 0.82:
         kind = rng.random()
-        if kind < 0.4:
+        if kind < 0.25:
             val = rng.choice(['2.0', "1.0'rc", '3.1.4'])
             steps.append((['kwargs', 'set', 'project', '/', 'version', val], {'op': 'kw_set', 'func': 'project', 'keys': {'version': val}}))
-        elif kind < 0.6:
+        elif kind < 0.4:
             steps.append((jcmd([{'type': 'kwargs', 'function': 'project', 'id': '/', 'operation': 'add', 'kwargs': {'license': ['GPL', "it's"]}}]),
                           {'op': 'kw_add', 'func': 'project', 'keys': {'license': ['GPL', "it's"]}}))
-        elif kind < 0.85:
+        elif kind < 0.5:
             steps.append((['kwargs', 'delete', 'project', '/', 'version', 'meson_version'], {'op': 'kw_del', 'func': 'project', 'keys': ['version', 'meson_version']}))
-        elif kind < 0.93:
+        elif kind < 0.78:
             key, pre = rng.choice([('default_options', 'warning_level='), ('default_options', 'c_std='), ('default_options', 'bindir='),
                                    ('license', 'MIT'), ('license', 'GPL-2.0')])
             steps.append((jcmd([{'type': 'kwargs', 'function': 'project', 'id': '/', 'operation': 'remove_regex', 'kwargs': {key: [pre + '.*']}}]),
@@ -485,6 +499,42 @@ def g_scenario(rng, meta):
         steps.append((['target', 'brandnew', 'info'], {'op': 'info', 'target': 'brandnew', 'expect_exact': ['n1.c', 'n2.c']}))
     else:
         steps.append((['target', tid, 'rm_target'], {'op': 'target_rm', 'target': tg['name']}))
+    for _, e_ in steps:
+        if 'target' in e_ and e_['op'] not in ('target_add',) and e_.get('func') != 'project':
+            e_.setdefault('file', tg['file'])
+    return steps
+
+
+def g_dep_scenario(rng, meta):
+    """kwargs set / delete / add / remove on the dependency() call."""
+    did = rng.choice(['zlib', 'dep'])
+    steps = []
+    kind = rng.random()
+    if kind < 0.35:
+        key, val = rng.choice([('required', True), ('required', False), ('static', True), ('native', False)])
+        steps.append((jcmd([{'type': 'kwargs', 'function': 'dependency', 'id': did, 'operation': 'set', 'kwargs': {key: val}}]),
+                      {'op': 'kw_set', 'func': 'dependency', 'keys': {key: val}}))
+    elif kind < 0.55:
+        key, val = rng.choice([('not_found_message', "it's gone"), ('method', 'pkg-config'), ('language', 'c'), ('not_found_message', 'back\\slash')])
+        steps.append((['kwargs', 'set', 'dependency', did, key, val], {'op': 'kw_set', 'func': 'dependency', 'keys': {key: val}}))
+    elif kind < 0.7:
+        ks = rng.sample(['required', 'version', 'not_found_message', 'static'], rng.randint(1, 2))
+        steps.append((['kwargs', 'delete', 'dependency', did] + ks, {'op': 'kw_del', 'func': 'dependency', 'keys': ks}))
+    elif kind < 0.85:
+        vals = rng.choice([['<2.0'], ['<2.0', '!=1.2.11'], ["!=1.0'x"]])
+        steps.append((jcmd([{'type': 'kwargs', 'function': 'dependency', 'id': did, 'operation': 'add', 'kwargs': {'version': vals}}]),
+                      {'op': 'kw_add', 'func': 'dependency', 'keys': {'version': vals}}))
+    else:
+        if rng.random() < 0.5:
+            steps.append((jcmd([{'type': 'kwargs', 'function': 'dependency', 'id': did, 'operation': 'remove', 'kwargs': {'version': ['>=1.0']}}]),
+                          {'op': 'kw_remove', 'func': 'dependency', 'keys': {'version': ['>=1.0']}}))
+        else:
+            steps.append((jcmd([{'type': 'kwargs', 'function': 'dependency', 'id': did, 'operation': 'remove_regex', 'kwargs': {'version': ['>=.*']}}]),
+                          {'op': 'kw_rmre', 'func': 'dependency', 'keys': {'version': ['>=']}}))
+    prev = steps[-1][1]
+    steps.append((['kwargs', 'info', 'dependency', did], {'op': 'kw_info', 'func': 'dependency', 'id': did,
+                                                          'expect_kw': prev['keys'] if prev['op'] == 'kw_set' else {},
+                                                          'expect_absent': prev['keys'] if prev['op'] == 'kw_del' else []}))
     return steps
 
 
@@ -638,11 +688,20 @@ def str_entries(v):
     return None
 
 
-def project_lists(stmts):
+def call_pred(exp):
+    if exp.get('func') == 'dependency':
+        return lambda t: s_val(t[1]) == 'dependency'
+    if exp.get('func', 'project') == 'project':
+        return lambda t: s_val(t[1]) == 'project'
+    return is_target_call(exp['target'])
+
+
+def project_lists(stmts, exp=None):
+    pred = call_pred(exp or {})
     for s in stmts:
         if s['tree'] is None:
             continue
-        for c in find_call(s['tree'], lambda t: s_val(t[1]) == 'project'):
+        for c in find_call(s['tree'], pred):
             return {s_val(k): str_entries(v) for k, v in c[3]}
     return {}
 
@@ -748,7 +807,7 @@ class StepJudge:
             for s in sta:
                 if s['tree'] is None:
                     continue
-                pred = (lambda t: s_val(t[1]) == 'project') if exp['func'] == 'project' else is_target_call(exp['target'])
+                pred = call_pred(exp)
                 c = find_call(s['tree'], pred)
                 if c:
                     tgt = c[0]
@@ -763,13 +822,13 @@ class StepJudge:
             for s in sta:
                 if s['tree'] is None:
                     continue
-                pred = (lambda t: s_val(t[1]) == 'project') if exp['func'] == 'project' else is_target_call(exp['target'])
+                pred = call_pred(exp)
                 for c in find_call(s['tree'], pred):
                     for k, _ in c[3]:
                         if s_val(k) in exp['keys']:
                             F.append(('deleted keyword still present', 'value-not-set', {'key': s_val(k)}))
-        if op in ('opt_set', 'opt_del', 'kw_rmre', 'kw_remove', 'kw_add') and rc == 0 and exp.get('func', 'project') == 'project':
-            lb, la = project_lists(stb), project_lists(sta)
+        if op in ('opt_set', 'opt_del', 'kw_rmre', 'kw_remove', 'kw_add') and rc == 0 and exp.get('func', 'project') in ('project', 'dependency'):
+            lb, la = project_lists(stb, exp), project_lists(sta, exp)
             if op in ('opt_set', 'opt_del'):
                 edits = {'default_options': exp['opts']}
             else:
@@ -1020,7 +1079,7 @@ def run(ctx):
     except ImportError:
         pass
     projects = [g_project(rng, i) for i in range(6000 if thorough else 260)]
-    files += [p[0]['meson.build'] for p in projects[:200]]
+    files += [t_ for p in projects[:200] for t_ in p[0].values()]
     for t in files:
         cases.append(('stmts', [t]))
     dist['files_for_statement_extents'] = len(files)
@@ -1047,6 +1106,14 @@ def run(ctx):
         # statements never span lines unless inside brackets, where the continuation lines are not separate statements
         ref_cases.append(stmt_index_cases(code, pick))
     cases += ref_cases
+    # rm_target's removal of `name = call(...)`: every top-level statement in turn, with and without a final newline
+    nrm = 0
+    for code, pick in reformat_cases[:(1500 if thorough else 150)]:
+        variants = [code, code.rstrip('\n'), code.rstrip('\n') + '  \n\n']
+        for k in range(min(6, code.count('\n') + 1)):
+            cases.append(('rm_assign', [rng.choice(variants), str(k)]))
+            nrm += 1
+    dist['rm_assign_cases'] = nrm
     for text, es in splice_cases:
         cases.append(('splice', [text] + [str(x) for e in es for x in e]))
     dist['reformat_files'] = len(ref_cases)
@@ -1060,7 +1127,7 @@ def run(ctx):
     nskip = 0
     for (fn, args), ri, rm in zip(cases, impl, model):
         ctx.count((fn, tuple(args)), nontrivial=True)
-        if fn == 'reformat' and (ri == '-' or rm == '-'):
+        if fn in ('reformat', 'rm_assign') and (ri == '-' or rm == '-'):
             nskip += 1
             if ri == rm:
                 continue
@@ -1114,6 +1181,33 @@ def run(ctx):
                 ctx.violation('C17:splice:text-outside-the-extent-changed',
                               'apply_changes replaced other text than the recorded extents: %r with %r gives %r, the extents mean %r'
                               % (args[0], es, ri, want), {'case': ['splice', args], 'expected': want})
+    rmq = [(args, ri[1:]) for (fn, args), ri in zip(cases, impl) if fn == 'rm_assign' and ri.startswith('O')]
+    for (fn, args), ri in zip(cases, impl):
+        if fn == 'rm_assign' and ri.startswith('EXC'):
+            ctx.violation('C17:rm_assign:internal-error', 'removing statement %s of %r through apply_changes raises %s' % (args[1], args[0], ri),
+                          {'case': ['rm_assign', args]})
+    rm_res = run_impl(ADAPTER, {'cases': [('stmts', [a[0]]) for a, _ in rmq] + [('stmts', [r]) for _, r in rmq], 'scratch': scratch})['results'] if rmq else []
+    for k, (args, after) in enumerate(rmq):
+        sb, sa = rm_res[k], rm_res[len(rmq) + k]
+        if sb == 'ERR':
+            continue
+        bad = None
+        if sa == 'ERR':
+            bad = 'unparsable'
+        else:
+            stb, _ = split_stmts(args[0], json.loads(sb))
+            sta, _ = split_stmts(after, json.loads(sa))
+            tb_, ta_ = [x['text'] for x in stb], [x['text'] for x in sta]
+            # statement idx (top level) is the only one that may disappear, together with what is nested in it
+            if len(ta_) >= len(tb_) or not all(t in tb_ for t in ta_):
+                bad = 'wrong-statement-count'
+            else:
+                it = iter(tb_)
+                if not all(any(t == u for u in it) for t in ta_):
+                    bad = 'unrelated-statement-changed'
+        if bad:
+            ctx.violation('C17:rm_assign:' + bad, 'removing statement %s of %r gives %r: %s' % (args[1], args[0], after, bad),
+                          {'case': ['rm_assign', args], 'class': bad})
     # reformat: re-printing statements in place keeps every other statement and the meaning of the re-printed ones
     stq = []
     for (fn, args), ri in zip(cases, impl):
@@ -1151,9 +1245,9 @@ def run(ctx):
     nproj = len(projects)
     plist = []
     for i, (pfiles, meta) in enumerate(projects):
-        steps = g_scenario(rng, meta)
+        steps = g_dep_scenario(rng, meta) if (meta['dep'] and rng.random() < 0.3) else g_scenario(rng, meta)
         if rng.random() < 0.25:
-            steps += g_scenario(rng, meta)[:3]
+            steps += (g_dep_scenario(rng, meta) if (meta['dep'] and rng.random() < 0.3) else g_scenario(rng, meta))[:3]
         plist.append({'files': pfiles, 'steps': [s[0] for s in steps], 'exp': [s[1] for s in steps], 'meta': meta})
     # hand-picked projects first
     corner = []
@@ -1183,9 +1277,10 @@ def run(ctx):
     # statements through the extracted Coq parser (reference parser for the files the rewriter wrote)
     texts = set()
     for c, res in zip(plist, results):
-        texts.add(c['files']['meson.build'])
+        texts.update(c['files'].values())
         for st in res:
-            texts.add(st['files'].get('meson.build', ''))
+            texts.update(st['files'].values())
+    texts.add('')
     texts = sorted(texts)
     if built:
         sj = ctx.run_model([('stmts', [t]) for t in texts])
@@ -1199,17 +1294,25 @@ def run(ctx):
     judge = StepJudge(lambda t: cache[t])
     opcount, failed_cmds, nsteps, n_unanalysable = {}, 0, 0, 0
     for pi, (c, res) in enumerate(zip(plist, results)):
-        before = c['files']['meson.build']
+        before_files = dict(c['files'])
         infos = []
         unanalysable = False
         for k, (argv, exp, st) in enumerate(zip(c['steps'], c['exp'], res)):
-            if k == 0 and st['rc'] != 0 and st['files'].get('meson.build') == before:
+            if k == 0 and st['rc'] != 0 and st['files'] == before_files:
                 unanalysable = True
                 n_unanalysable += 1
                 break
             nsteps += 1
             opcount[exp['op']] = opcount.get(exp['op'], 0) + 1
-            after = st['files'].get('meson.build', '')
+            fkey = exp.get('file', 'meson.build')
+            before = before_files.get(fkey, '')
+            after = st['files'].get(fkey, '')
+            for f_ in before_files:
+                if f_ != fkey and st['files'].get(f_) != before_files[f_]:
+                    ctx.violation('C17:cli:%s:another-build-file-changed' % exp['op'],
+                                  '`meson rewrite %s` changed %s, the edited statement is in %s:\n%s\n->\n%s'
+                                  % (' '.join(argv), f_, fkey, before_files[f_][:600], (st['files'].get(f_) or '')[:600]),
+                                  {'project': {'files': c['files'], 'steps': c['steps'][:k + 1]}, 'step': k, 'command': argv})
             ctx.count(('proj', before, tuple(argv)), nontrivial=True)
             if st['rc'] != 0:
                 failed_cmds += 1
@@ -1231,11 +1334,11 @@ def run(ctx):
                 for key, val in exp.get('expect_kw', {}).items():
                     if data.get(key) != val:
                         ctx.violation('C17:cli:kw_set:info-does-not-report-it', 'after setting %s to %r on\n%s\ninfo reports %r'
-                                      % (key, val, c['files']['meson.build'][:1200], data.get(key)), replay_obj)
+                                      % (key, val, before[:1200], data.get(key)), replay_obj)
                 for key in exp.get('expect_absent', []):
                     if key in data:
                         ctx.violation('C17:cli:kw_del:info-does-not-report-it', 'after deleting %s on\n%s\ninfo still reports %r'
-                                      % (key, c['files']['meson.build'][:1200], data.get(key)), replay_obj)
+                                      % (key, before[:1200], data.get(key)), replay_obj)
             if exp['op'] == 'info':
                 srcs, ext = info_sources(st['info']), info_sources(st['info'], 'extra_files')
                 infos.append((srcs, ext))
@@ -1245,21 +1348,21 @@ def run(ctx):
                     if 'expect_added' in exp and len(infos) >= 2 and infos[-2][0] is not None:
                         if not (set(infos[-2][0]) <= set(srcs) and set(base(f) for f in exp['expect_added']) <= set(base(f) for f in srcs)):
                             ctx.violation('C17:cli:src_add:info-does-not-report-it', 'after adding %s to\n%s\ninfo reports sources %s (before: %s)'
-                                          % (exp['expect_added'], c['files']['meson.build'][:1200], srcs, infos[-2][0]), replay_obj)
+                                          % (exp['expect_added'], before[:1200], srcs, infos[-2][0]), replay_obj)
                     if 'expect_removed' in exp and len(infos) >= 2 and infos[-2][0] is not None:
                         if set(base(f) for f in exp['expect_removed']) & set(base(f) for f in srcs) or not set(srcs) <= set(infos[-2][0]):
                             ctx.violation('C17:cli:src_rm:info-does-not-report-it', 'after removing %s from\n%s\ninfo reports sources %s (before: %s)'
-                                          % (exp['expect_removed'], c['files']['meson.build'][:1200], srcs, infos[-2][0]), replay_obj)
+                                          % (exp['expect_removed'], before[:1200], srcs, infos[-2][0]), replay_obj)
                     if 'expect_extra_added' in exp and ext is not None:
                         if not set(base(f) for f in exp['expect_extra_added']) <= set(base(f) for f in ext):
                             ctx.violation('C17:cli:extra_add:info-does-not-report-it', 'after adding extra files %s to\n%s\ninfo reports %s'
-                                          % (exp['expect_extra_added'], c['files']['meson.build'][:1200], ext), replay_obj)
+                                          % (exp['expect_extra_added'], before[:1200], ext), replay_obj)
                     if prev is not None and prev[0] is not None and (set(prev[0]) != set(srcs) or set(prev[1] or []) != set(ext or [])):
                         ctx.violation('C17:cli:inverse-does-not-restore-the-set', 'add-then-remove / remove-then-add on\n%s\nleaves sources %s extra %s, was %s extra %s'
-                                      % (c['files']['meson.build'][:1200], srcs, ext, prev[0], prev[1]), replay_obj)
+                                      % (before[:1200], srcs, ext, prev[0], prev[1]), replay_obj)
                     if 'expect_exact' in exp and set(base(f) for f in srcs) != set(exp['expect_exact']):
                         ctx.violation('C17:cli:target_add:info-does-not-report-it', 'new target reports sources %s, requested %s' % (srcs, exp['expect_exact']), replay_obj)
-            before = after
+            before_files = dict(st['files'])
     # the edited default_options lists against the model of process_default_options (Rewrite/Edits.v:
     # opts_set / opts_remove, theorems C17_opts_*): entries of other options untouched, in order
     mcases, mexp = [], []
@@ -1288,25 +1391,29 @@ def run(ctx):
     # a sample through the real command line (a new process per command): same files as in-process
     ncli = 40 if thorough else 6
     mism = 0
-    for c, res in list(zip(plist, results))[:ncli]:
+    cli_sample = list(zip(plist, results))[:ncli] + [x for x in zip(plist, results) if len(x[0]['files']) > 1][:(8 if thorough else 2)]
+    for c, res in cli_sample:
         d = os.path.join(scratch, 'cli')
         shutil.rmtree(d, ignore_errors=True)
         os.makedirs(d)
-        with open(os.path.join(d, 'meson.build'), 'w', encoding='utf-8', newline='') as f:
-            f.write(c['files']['meson.build'])
+        for rel, text in c['files'].items():
+            os.makedirs(os.path.dirname(os.path.join(d, rel)), exist_ok=True)
+            with open(os.path.join(d, rel), 'w', encoding='utf-8', newline='') as f:
+                f.write(text)
         for argv, st in zip(c['steps'], res):
             r = meson_cli(['rewrite', '--sourcedir', d] + list(argv), cwd=d)
-            got = open(os.path.join(d, 'meson.build'), encoding='utf-8', newline='').read()
-            if got != st['files'].get('meson.build'):
+            got = {rel: open(os.path.join(d, rel), encoding='utf-8', newline='').read() for rel in c['files']}
+            if got != {rel: st['files'].get(rel) for rel in c['files']}:
                 mism += 1
-                ctx.disagreements.append({'case': ['cli-vs-in-process', argv], 'implementation': got[:500], 'model': st['files'].get('meson.build', '')[:500]})
+                ctx.disagreements.append({'case': ['cli-vs-in-process', argv], 'implementation': json.dumps(got)[:600], 'model': json.dumps(st['files'])[:600]})
                 break
-    dist['real_cli_runs_compared'] = ncli
+    dist['real_cli_runs_compared'] = len(cli_sample)
+    dist['projects_with_subdir'] = sum(1 for c in plist if len(c['files']) > 1)
     lap('real_cli')
     ctx.extra['stage_s'] = stage
     ctx.extra['input_distribution'] = dist
     ctx.extra['reformat_skipped'] = nskip
-    ctx.sample({'project': plist[7]['files']['meson.build'][:600], 'steps': plist[7]['steps']})
+    ctx.sample({'project': {k_: v_[:600] for k_, v_ in plist[7]['files'].items()}, 'steps': plist[7]['steps']})
 
     order = ['C17:cli', 'C17:reformat', 'C17:splice', 'C17:reprint', 'C17:escape']
     ctx.violations.sort(key=lambda v: min([i for i, p_ in enumerate(order) if v['id'].startswith(p_)] or [9]))
